@@ -1,6 +1,7 @@
 //! Loopback mock services (real sockets, real time).
 pub mod grpc;
 pub mod http;
+pub mod k8s;
 
 use std::sync::OnceLock;
 
